@@ -31,11 +31,11 @@ theorem remove_identity_preserves_flat (c : Circuit) (order : List Nat) : (c.rem
 theorem unwrap_preserves_flat (c : Circuit) (order : List Nat) (hwf : c.WF) : (c.unwrapNodes order).flat = c.flat :=
   (flat_unwrapNodes c order hwf).2
 
-/-- `group_one_qubit_gates`, for every register order, whenever it does not raise (it raises exactly when it meets a
-    `MeasurementZ` — known finding): the backward collection order and the wrapper convention cancel -/
-theorem group_preserves_flat (c : Circuit) (order : List Reg) (c' : Circuit) (hwf : c.WF) (har : c.Arity1)
-    (h : c.groupOneQubitGates order = Except.ok c') : c'.flat = c.flat :=
-  (flat_groupOneQubitGates c order c' hwf har h).2.2
+/-- `group_one_qubit_gates`, for every register order: the backward collection order and the wrapper convention cancel;
+    a `MeasurementZ` (which also carries the label `one-qubit`) is a boundary (fix D48) -/
+theorem group_preserves_flat (c : Circuit) (order : List Reg) (hwf : c.WF) (har : c.Arity1) :
+    (c.groupOneQubitGates order).flat = c.flat :=
+  (flat_groupOneQubitGates c order hwf har).2.2
 
 /-- `assign_noise(∅)`: re-adding every operation along any topological order -/
 theorem assign_noise_preserves_flat (c : Circuit) (seq : List Nat) (c' : Circuit) (hwf : c.WF) (hok : c.OpsOk)
@@ -43,7 +43,7 @@ theorem assign_noise_preserves_flat (c : Circuit) (seq : List Nat) (c' : Circuit
   (flat_assignNoise c seq c' hwf hok h).1
 
 /-- all five at once, on sane circuits (`Good`: well-formed wires; every operation has a quantum register,
-    duplicate-free registers, existing classical registers; one-qubit operations act on one register) -/
+    duplicate-free registers, existing classical registers; one-qubit gates act on one register) -/
 theorem rewrite_preserves_flat (c c' : Circuit) (hgood : c.Good) (h : Rewrites c c') : c'.flat = c.flat :=
   h.flat_eq hgood
 
@@ -124,18 +124,17 @@ def okOr (x : Except Err Circuit) : Bool × Circuit := match x with
   | .ok c => (true, c)
   | .error _ => (false, default)
 
-/-- grouping succeeds on the example, merges `H ; W[P,H]` on `e0` into one wrapper and keeps `flat` -/
-example : (okOr (exC.groupOneQubitGates [⟨.e, 0⟩, ⟨.p, 0⟩, ⟨.c, 0⟩])).1 = true ∧
-    (okOr (exC.groupOneQubitGates [⟨.e, 0⟩, ⟨.p, 0⟩, ⟨.c, 0⟩])).2.wire ⟨.e, 0⟩ = [8, 4, 7] ∧
-    (okOr (exC.groupOneQubitGates [⟨.e, 0⟩, ⟨.p, 0⟩, ⟨.c, 0⟩])).2.flat = exC.flat := by decide
+/-- grouping merges `H ; W[P,H]` on `e0` into one wrapper and keeps `flat` -/
+example : (exC.groupOneQubitGates [⟨.e, 0⟩, ⟨.p, 0⟩, ⟨.c, 0⟩]).wire ⟨.e, 0⟩ = [8, 4, 7] ∧
+    (exC.groupOneQubitGates [⟨.e, 0⟩, ⟨.p, 0⟩, ⟨.c, 0⟩]).flat = exC.flat := by decide
 example : (okOr (exC.assignNoise [1, 3, 2, 4, 5, 6, 7])).1 = true ∧
     (okOr (exC.assignNoise [1, 3, 2, 4, 5, 6, 7])).2.flat = exC.flat := by decide
 example : exC.isLinearExtension [1, 3, 2, 4, 5, 6, 7] = true ∧ exC.isLinearExtension [3, 1, 2, 4, 6, 5, 7] = false := by decide
 
-/-- grouping raises on a circuit with a `MeasurementZ` (the known finding; the hypothesis `= ok` of
-    `group_preserves_flat` excludes it) -/
-example : (match (exC.addCore ⟨.measZ, [⟨.e, 0⟩], [0], false⟩).groupOneQubitGates [⟨.e, 0⟩] with
-    | .ok _ => false | .error _ => true) = true := by decide
+/-- a `MeasurementZ` is a boundary for grouping: it stays on its wires, the gates before it are still merged -/
+example : ((exC.addCore ⟨.measZ, [⟨.e, 0⟩], [0], false⟩).groupOneQubitGates [⟨.e, 0⟩, ⟨.c, 0⟩]).wire ⟨.e, 0⟩ = [9, 4, 7, 8] ∧
+    ((exC.addCore ⟨.measZ, [⟨.e, 0⟩], [0], false⟩).groupOneQubitGates [⟨.e, 0⟩, ⟨.c, 0⟩]).flat =
+      (exC.addCore ⟨.measZ, [⟨.e, 0⟩], [0], false⟩).flat := by decide
 
 /-- the example is well-formed and sane (hypotheses `WF`, `Arity1`, `OpsOk`, `Good` of the theorems above) -/
 example : exC.Good := by
@@ -144,7 +143,7 @@ example : exC.Good := by
   repeat' (apply Good_addCore)
   any_goals exact Good_empty 1 1 1
   all_goals first
-    | (refine ⟨by decide, by decide, by decide, ?_⟩; intro _; exact ⟨⟨_, rfl⟩, fun _ => rfl⟩)
+    | (refine ⟨by decide, by decide, by decide, ?_⟩; intro _; exact ⟨⟨_, rfl⟩, rfl⟩)
     | (refine ⟨by decide, by decide, by decide, ?_⟩; intro h; cases h)
     | (intro r hr; simp only [List.mem_cons, List.not_mem_nil, or_false] at hr; rcases hr with rfl | rfl <;> decide)
 
